@@ -68,6 +68,9 @@ type descriptor struct {
 	// moment StartAll has returned (nothing settles in between): that wait is
 	// waiter 0 and is judged like every other one
 	EagerWait bool `json:"eagerWait,omitempty"`
+	// WideEnd: the last chain ends in a parallel fork into WideEnd end events
+	// (8..32 flows end at the same moment, the last ones of the instance)
+	WideEnd int `json:"wideEnd,omitempty"`
 }
 
 func build(d descriptor) *gen.Graph {
@@ -156,7 +159,14 @@ func build(d descriptor) *gen.Graph {
 			cur = sub
 		}
 		var last *gen.Flow
-		if d.Merge {
+		if d.WideEnd > 0 && i == d.Starts-1 && !d.Merge && !deadStart {
+			wf := b.Add(gen.KPar)
+			last = b.Connect(cur, wf)
+			for k := 0; k < d.WideEnd; k++ {
+				we := b.Add(gen.KEnd)
+				b.Connect(wf, we)
+			}
+		} else if d.Merge {
 			last = b.Connect(cur, merge)
 		} else {
 			en := b.Add(gen.KEnd)
@@ -522,6 +532,7 @@ func draw(rt *rapid.T) descriptor {
 		kinds = append(kinds, "cancelBuild")
 	}
 	d.EagerWait = rapid.Bool().Draw(rt, "eagerWait")
+	d.WideEnd = rapid.SampledFrom([]int{0, 0, 0, 8, 16, 32}).Draw(rt, "wideEnd")
 	if rapid.IntRange(0, 2).Draw(rt, "condStarts") == 0 {
 		d.CondStarts = rapid.IntRange(1, 1<<d.Starts-1).Draw(rt, "condStartMask")
 	}
